@@ -54,23 +54,23 @@ Proof.
   - apply IH; [assumption | intro X; apply H; right; exact X].
 Qed.
 
-Lemma uniq_title_fresh : forall esc f l used idx t t', uniq_title esc f l used idx t = Ok t' -> text_mem t' used = false.
+Lemma uniq_title_fresh : forall esc norm f l used idx t t', uniq_title esc norm f l used idx t = Ok t' -> text_mem (norm t') used = false.
 Proof.
-  intro esc. induction f as [|f IH]; intros l used idx t t' H; simpl in H; [discriminate|].
-  destruct (text_mem t used) eqn:E; [apply (IH _ _ _ _ _ H) | inversion H; subst; exact E].
+  intros esc norm. induction f as [|f IH]; intros l used idx t t' H; simpl in H; [discriminate|].
+  destruct (text_mem (norm t) used) eqn:E; [apply (IH _ _ _ _ _ H) | inversion H; subst; exact E].
 Qed.
 
 Arguments uniq_title : simpl never.
 
-Lemma assign_titles_distinct : forall esc labels used ts, NoDup used ->
-  assign_titles esc labels used = Ok ts -> NoDup (used ++ ts).
+Lemma assign_titles_distinct : forall esc norm labels used ts, NoDup used ->
+  assign_titles esc norm labels used = Ok ts -> NoDup (used ++ map norm ts).
 Proof.
-  intro esc. induction labels as [|l r IH]; intros used ts N H; simpl in H.
+  intros esc norm. induction labels as [|l r IH]; intros used ts N H; simpl in H.
   - inversion H. rewrite List.app_nil_r. exact N.
-  - destruct (uniq_title esc (S (length used)) l used 1 (esc l)) as [t| |] eqn:E; try discriminate. cbn [bind] in H.
-    destruct (assign_titles esc r (used ++ [t])) as [ts'| |] eqn:E2; try discriminate. cbn [bind] in H.
+  - destruct (uniq_title esc norm (S (length used)) l used 1 (esc l)) as [t| |] eqn:E; try discriminate. cbn [bind] in H.
+    destruct (assign_titles esc norm r (used ++ [norm t])) as [ts'| |] eqn:E2; try discriminate. cbn [bind] in H.
     inversion H; subst. apply uniq_title_fresh in E. apply text_mem_false in E.
-    specialize (IH (used ++ [t]) ts'). rewrite <- app_assoc in IH. apply IH; [|exact E2].
+    specialize (IH (used ++ [norm t]) ts'). rewrite <- app_assoc in IH. cbn [map]. apply IH; [|exact E2].
     apply NoDup_app_snoc; assumption.
 Qed.
 
@@ -219,12 +219,30 @@ Proof.
   apply (resolve_linked nss i title (map fst m) ns0 Hnd Hi).
 Qed.
 
-(* The writer only makes titles different as strings; the reader compares them after .upper():
+(* With the repair (keys upper-cased) every title the writer hands out resolves, under the reader's
+   comparison, to exactly its own namespace. (The text written as TITLE is taken as the title the
+   reader sees: unquoting is the token layer's, C02.) *)
+Lemma titles_resolve_l : forall (esc : tok -> text) (labels : list tok) (ts : list text) (taxa : text -> list text)
+    (i : nat) (t : text) (ns0 : list text),
+  assign_titles esc ucase labels [] = Ok ts ->
+  nth_error ts i = Some t ->
+  resolve_in (tab_of (map (fun x => (x, taxa x)) ts)) (Some t) ns0 = Ok (taxa t).
+Proof.
+  intros esc labels ts taxa i t ns0 H Hi.
+  apply (resolve_linked (map (fun x => (x, taxa x)) ts) i t (taxa t) ns0).
+  - match goal with |- NoDup (map ucase ?X) =>
+      assert (E : X = ts) by (rewrite map_map; exact (map_id ts)); rewrite E
+    end.
+    apply (assign_titles_distinct esc ucase labels [] ts (NoDup_nil _) H).
+  - rewrite nth_error_map. rewrite Hi. reflexivity.
+Qed.
+
+(* The writer as it was only made titles different as strings; the reader compares them after .upper():
    two namespaces labelled "ns" and "NS" get the distinct titles ns / NS, and neither link resolves.
    (The hypothesis `NoDup (map ucase titles)` above is needed; replayed on the implementation by
    the harness: key dataset-nexus-unreadable:namespace-titles-equal-up-to-case.) *)
 Lemma title_case_refuted_l :
-  exists labels titles, assign_titles (fun t => t) labels [] = Ok titles /\ NoDup titles
+  exists labels titles, assign_titles (fun t => t) (fun t => t) labels [] = Ok titles /\ NoDup titles
     /\ exists t, In t titles /\ resolve_in (tab_of (map (fun x => (x, @nil text)) titles)) (Some t) [] = Err ParseErr.
 Proof.
   exists [[110; 115]; [78; 83]], [[110; 115]; [78; 83]]. split; [vm_compute; reflexivity|].
